@@ -126,15 +126,41 @@ class RunOde:
         self.ret = rets[0]
         self.RES = rets[0].value.id
         self.row_loop = None
+        self.rowv = None
+        self.row_range: tuple | None = None     # index form: (lo, hi) args
         for n in ast.walk(self.outer):
             if isinstance(n, ast.For) and isinstance(
                     n.iter, ast.Subscript) and isinstance(
                     n.iter.value, ast.Name) and n.iter.value.id == self.RES \
                     and isinstance(n.target, ast.Name):
                 self.row_loop = n
+                self.rowv = n.target.id
+        if self.row_loop is None:
+            # the index form: for k in range(a, b): row = RES[k]; ...
+            for n in ast.walk(self.outer):
+                if isinstance(n, ast.For) and isinstance(
+                        n.target, ast.Name) and isinstance(
+                        n.iter, ast.Call) and isinstance(
+                        n.iter.func, ast.Name) and \
+                        n.iter.func.id == "range" and n.body and isinstance(
+                        n.body[0], (ast.Assign, ast.AnnAssign)) and \
+                        isinstance(getattr(n.body[0], "value", None),
+                                   ast.Subscript) and isinstance(
+                        n.body[0].value.value, ast.Name) and \
+                        n.body[0].value.value.id == self.RES and isinstance(
+                        n.body[0].value.slice, ast.Name) and \
+                        n.body[0].value.slice.id == n.target.id and \
+                        isinstance(_tg(n.body[0])[0], ast.Name):
+                    k_ = n.target.id
+                    rebound = any(isinstance(x, ast.Name) and isinstance(
+                        x.ctx, ast.Store) and x.id in (k_, self.RES)
+                        for b_ in n.body for x in ast.walk(b_))
+                    if not rebound:
+                        self.row_loop = n
+                        self.rowv = _tg(n.body[0])[0].id
+                        self.row_range = tuple(n.iter.args)
         ctx.need(self.row_loop is not None,
                  "run_ode: loop over the result rows")
-        self.rowv = self.row_loop.target.id
         self.alloc = [s for s in ast.walk(self.outer) if isinstance(
             s, (ast.Assign, ast.AnnAssign)) and getattr(
             s, "value", None) is not None and any(
@@ -690,9 +716,15 @@ def _static(ctx: Ctx, ro: FuncInfo, m: RunOde) -> None:
     repo, const = ctx.repo, m.const
     # row loop visits rows 1..
     it = m.row_loop.iter
-    it_ok = isinstance(it.slice, ast.Slice) and const(
-        it.slice.lower) == 1 and it.slice.upper is None and \
-        it.slice.step is None
+    if m.row_range is not None:
+        a_ = m.row_range
+        hi_ = ast.unparse(a_[1]).replace(" ", "") if len(a_) == 2 else ""
+        it_ok = len(a_) == 2 and const(a_[0]) == 1 and hi_ in (
+            f"len({m.RES})", f"{m.RES}.shape[0]", m.steps)
+    else:
+        it_ok = isinstance(it.slice, ast.Slice) and const(
+            it.slice.lower) == 1 and it.slice.upper is None and \
+            it.slice.step is None
     ctx.ob("D10.2", ro, m.row_loop, bool(it_ok),
            "the row loop visits result[1:], i.e. every row after the first"
            if it_ok else f"the row loop visits `{ast.unparse(it)}` - rows "
